@@ -547,6 +547,52 @@ func runShard(path string, jobs []Job, out []outcome) {
 	}
 }
 
+// leafStream ties the hand-transcribed decInferLen / usableByteSlice of C02/Alloc.v to the code.
+func leafStream(c *ctx) {
+	sg := func(v int64) (uint64, uint64) {
+		if v < 0 {
+			return 1, uint64(-v)
+		}
+		return 0, uint64(v)
+	}
+	clens := []int64{0, 1, 7, 8, 9, 63, 64, 65, 1023, 1024, 1025, 4096, 65536, 1 << 20, 1<<20 + 1, 1 << 31, 1<<32 - 1, 1<<62 + 5, math.MaxInt64,
+		-1, -2, -2147483648, -2147483647, -2147483649, math.MinInt64 + 1}
+	maxlens := []uint64{0, 1, 8, 1024, 1025, 4096, 70000, 1 << 31}
+	units := []uint64{0, 1, 2, 7, 8, 9, 16, 24, 48, 63, 64, 65, 300, 1 << 20, 1<<20 + 1}
+	for _, cl := range clens {
+		for _, ml := range maxlens {
+			for _, u := range units {
+				if c.r.Intn(3) != 0 {
+					continue
+				}
+				got := codec.VerifC02DecInferLen(int(cl), uint(ml), uint(u))
+				s, v := sg(cl)
+				c.nmod++
+				c.cv.Add(fmt.Sprintf("mkc2 %d 0 9 (mkopts 0%%Z false false false false) [%d; %d; %d; %d]%%N %d 0", c.nmod, s, v, ml, u, got))
+				c.sum.ModelCases++
+				c.sum.Count("leaf.decInferLen", fmt.Sprintf("leaf/inferlen/%d/%d/%d", cl, ml, u))
+			}
+		}
+	}
+	for _, bc := range []int{0, 8, 64, 1024} {
+		for _, sl := range []int64{0, -1, -5, 1, 8, 9, 64, 65, 1024, 1025, 1 << 20, 64<<20 - 1, 64 << 20, 64<<20 + 1, 1 << 40} {
+			n, isNew := codec.VerifC02UsableByteSliceLen(bc, int(sl))
+			s, v := sg(sl)
+			c.nmod++
+			c.cv.Add(fmt.Sprintf("mkc2 %d 0 10 (mkopts 0%%Z false false false false) [%d; %d; %d]%%N %d %d", c.nmod, bc, s, v, n, b2i(isNew)))
+			c.sum.ModelCases++
+			c.sum.Count("leaf.usableByteSlice", fmt.Sprintf("leaf/usable/%d/%d", bc, sl))
+		}
+	}
+}
+
+func b2i(b bool) int {
+	if b {
+		return 1
+	}
+	return 0
+}
+
 func main() {
 	docs := flag.Int("docs", 2, "documents per (format, destination) in the structured stream")
 	perHead := flag.Int("heads", 1, "lone hostile heads per (format, kind, width, length)")
@@ -736,6 +782,7 @@ func main() {
 			}
 		}
 	}
+	leafStream(c)
 	c.cv.Close()
 	sum.Extra = map[string]interface{}{"c02_max_alloc_over_bound": maxAllocRatio, "c02_max_decode_ns": maxNs, "c02_jobs": len(c.jobs)}
 	sum.Print()
